@@ -124,3 +124,285 @@ Section StepLocal.
     exact I.
   Qed.
 End StepLocal.
+
+Section StepFrame.
+  Variable i : N.
+  Variable w : world.
+
+  Ltac leaf Hf :=
+    open_args; cbv beta iota;
+    try exact I;
+    unfold with_file, obind; rewrite ?Hf; cbv beta iota;
+    open_opts; cbv beta iota zeta;
+    first [ exact I
+          | apply frame_at_upd
+          | cbn [frame_at]; intros j Hj; first [apply wget_wset_other; exact Hj | reflexivity] ].
+
+  Lemma step_frame op : op_file op = Some i -> frame_at i w (step w op).
+  Proof.
+    intros Hf. destruct op as [a|[|[h|l] args]]; try discriminate Hf.
+    destruct args as [|fe rest]; [discriminate Hf|].
+    cbn [op_file] in Hf. destruct (str_eqb h (S "rplain")) eqn:Erp; [discriminate Hf|].
+    unfold step.
+    do 16 (next_kind; [leaf Hf|]).
+    rewrite Erp.
+    next_kind; [leaf Hf|].
+    next_kind; [leaf Hf|].
+    exact I.
+  Qed.
+End StepFrame.
+
+(* An operation without a File (rplain, or a line the interpreter rejects) neither reads nor
+   writes the world. *)
+Definition pure_step (w1 w2 : world) (r1 r2 : option (world * list str)) : Prop :=
+  match r1, r2 with
+  | Some (w1', o1), Some (w2', o2) => w1' = w1 /\ w2' = w2 /\ o1 = o2
+  | None, None => True
+  | _, _ => False
+  end.
+
+Ltac two_kinds :=
+  match goal with
+  | E1 : str_eqb ?h ?a = true, E2 : str_eqb ?h ?b = true |- _ =>
+    apply str_eqb_eq in E1; apply str_eqb_eq in E2; rewrite E1 in E2; vm_compute in E2; discriminate E2
+  end.
+
+Section StepNoFile.
+  Variables w1 w2 : world.
+
+  Ltac leaf Hf :=
+    open_args; cbv beta iota;
+    try exact I;
+    unfold with_file, obind; rewrite ?Hf; cbv beta iota;
+    open_opts; cbv beta iota zeta;
+    first [ exact I | cbn [pure_step]; repeat split; reflexivity ].
+
+  Lemma step_nofile op : op_file op = None -> pure_step w1 w2 (step w1 op) (step w2 op).
+  Proof.
+    intros Hf. destruct op as [a|[|[h|l] args]]; try exact I.
+    unfold step.
+    destruct args as [|fe rest].
+    - do 19 (next_kind; [exact I|]). exact I.
+    - cbn [op_file] in Hf. destruct (str_eqb h (S "rplain")) eqn:Erp.
+      + do 16 (next_kind; [two_kinds|]).
+        cbv beta iota. leaf Hf.
+      + do 16 (next_kind; [leaf Hf|]).
+        next_kind; [leaf Hf|].
+        next_kind; [leaf Hf|].
+        exact I.
+  Qed.
+End StepNoFile.
+
+(* ---- histories ---- *)
+(* [run_ops] of Model/Exec.v with every observation labelled by the File of its operation,
+   and the final world. *)
+Fixpoint run_tagged (w : world) (ops : list sexp) : option (world * list (option N * list str)) :=
+  match ops with
+  | [] => Some (w, [])
+  | op :: ops' =>
+    match step w op with
+    | Some (w', obs) => omap (fun r => (fst r, (op_file op, obs) :: snd r)) (run_tagged w' ops')
+    | None => None
+    end
+  end.
+
+Definition tag_is (i : N) (e : option N * list str) : bool :=
+  match fst e with Some j => j =? i | None => false end.
+
+Definition all_obs (l : list (option N * list str)) : list str := flat_map snd l.
+(* the observations of the operations on File i *)
+Definition obs_of (i : N) (l : list (option N * list str)) : list str := flat_map snd (filter (tag_is i) l).
+
+Lemma run_ops_tagged ops : forall w, run_ops w ops = omap (fun r => all_obs (snd r)) (run_tagged w ops).
+Proof.
+  induction ops as [|op ops IH]; intros w; cbn [run_ops run_tagged]; [reflexivity|].
+  destruct (step w op) as [[w' obs]|]; [|reflexivity].
+  rewrite IH. destruct (run_tagged w' ops) as [[wf l]|]; reflexivity.
+Qed.
+
+Lemma on_file_true i op : on_file i op = true <-> op_file op = Some i.
+Proof.
+  unfold on_file. destruct (op_file op) as [j|]; [|split; discriminate].
+  rewrite N.eqb_eq. split; [intros ->; reflexivity | intros [= ->]; reflexivity].
+Qed.
+
+(* The sub-history of the operations on File i, run from any world that agrees on File i:
+   same observations, same final state of File i. *)
+Lemma run_frame i : forall ops w wi r,
+  wget w i = wget wi i -> run_tagged w ops = Some r ->
+  exists ri, run_tagged wi (filter (on_file i) ops) = Some ri /\
+             all_obs (snd ri) = obs_of i (snd r) /\ wget (fst ri) i = wget (fst r) i.
+Proof.
+  induction ops as [|op ops IH]; intros w wi r Hw Hr.
+  - injection Hr as <-. exists (wi, []). repeat split. symmetry. exact Hw.
+  - cbn [run_tagged] in Hr. destruct (step w op) as [[w' obs]|] eqn:Es; [|discriminate Hr].
+    destruct (run_tagged w' ops) as [r'|] eqn:Er; [|discriminate Hr].
+    injection Hr as <-. cbn [filter fst snd].
+    destruct (on_file i op) eqn:Eo.
+    + apply on_file_true in Eo.
+      pose proof (step_local i w wi Hw op Eo) as Hl. rewrite Es in Hl.
+      destruct (step wi op) as [[wi' obs']|] eqn:Esi; [|contradiction Hl].
+      destruct Hl as [<- Hw'].
+      destruct (IH w' wi' r' Hw' Er) as [ri' [Hri [Ho Hf]]].
+      exists (fst ri', (op_file op, obs) :: snd ri'). cbn [run_tagged]. rewrite Esi, Hri.
+      repeat split; cbn [fst snd omap option_map]; [|exact Hf].
+      unfold obs_of, all_obs in *. cbn [filter flat_map]. unfold tag_is at 1. cbn [fst]. rewrite Eo, N.eqb_refl.
+      cbn [flat_map snd]. rewrite Ho. reflexivity.
+    + assert (Hw' : wget w' i = wget wi i).
+      { rewrite <- Hw. destruct (op_file op) as [j|] eqn:Ef.
+        - pose proof (step_frame j w op Ef) as Hfr. rewrite Es in Hfr. apply Hfr.
+          intros ->. apply on_file_true in Ef. congruence.
+        - pose proof (step_nofile w w op Ef) as Hp. rewrite Es in Hp. destruct Hp as [-> _]. reflexivity. }
+      destruct (IH w' wi r' Hw' Er) as [ri' [Hri [Ho Hf]]].
+      exists ri'. repeat split; [exact Hri| |exact Hf].
+      rewrite Ho. unfold obs_of. cbn [filter]. unfold tag_is at 2. cbn [fst].
+      unfold on_file in Eo. destruct (op_file op); [rewrite Eo|]; reflexivity.
+Qed.
+
+Lemma filter_idem {A} (p : A -> bool) l : filter p (filter p l) = filter p l.
+Proof.
+  induction l as [|x l IH]; [reflexivity|]. cbn [filter]. destruct (p x) eqn:E; [|exact IH].
+  cbn [filter]. rewrite E, IH. reflexivity.
+Qed.
+
+(* a history that only touches File j runs equally well from any world that agrees on j *)
+Lemma run_local_ok j ops w w2 :
+  wget w j = wget w2 j -> run_tagged w (filter (on_file j) ops) <> None ->
+  run_tagged w2 (filter (on_file j) ops) <> None.
+Proof.
+  intros Hw Hr. destruct (run_tagged w (filter (on_file j) ops)) as [r|] eqn:E; [|contradiction].
+  destruct (run_frame j _ w w2 r Hw E) as [ri [Hri _]]. rewrite filter_idem in Hri. rewrite Hri. discriminate.
+Qed.
+
+(* If every per-File sub-history runs and every File-less operation is accepted, the whole
+   history runs. *)
+Lemma run_compose : forall ops w,
+  (forall op, In op ops -> op_file op = None -> step [] op <> None) ->
+  (forall j, run_tagged w (filter (on_file j) ops) <> None) ->
+  run_tagged w ops <> None.
+Proof.
+  induction ops as [|op ops IH]; intros w Hn Hj; [discriminate|].
+  cbn [run_tagged].
+  assert (Hn' : forall op', In op' ops -> op_file op' = None -> step [] op' <> None).
+  { intros op' Hin. apply Hn. right. exact Hin. }
+  destruct (op_file op) as [i|] eqn:Ef.
+  - pose proof (Hj i) as Hi. cbn [filter] in Hi.
+    assert (Eo : on_file i op = true) by (apply on_file_true; exact Ef).
+    rewrite Eo in Hi. cbn [run_tagged] in Hi.
+    destruct (step w op) as [[w' obs]|] eqn:Es; [|contradiction].
+    assert (Hok : run_tagged w' ops <> None).
+    { apply IH; [exact Hn'|]. intros j. destruct (N.eq_dec j i) as [->|Hne].
+      - destruct (run_tagged w' (filter (on_file i) ops)); [discriminate | contradiction].
+      - apply (run_local_ok j ops w w').
+        + pose proof (step_frame i w op Ef) as Hfr. rewrite Es in Hfr. symmetry. apply Hfr. exact Hne.
+        + specialize (Hj j). cbn [filter] in Hj.
+          replace (on_file j op) with false in Hj; [exact Hj|].
+          unfold on_file. rewrite Ef. symmetry. apply N.eqb_neq. intros ->. contradiction. }
+    destruct (run_tagged w' ops); [discriminate | contradiction].
+  - pose proof (step_nofile w [] op Ef) as Hp.
+    specialize (Hn op (or_introl eq_refl) Ef).
+    destruct (step [] op) as [[w0 o0]|]; [|contradiction].
+    destruct (step w op) as [[w' obs]|]; [|contradiction].
+    destruct Hp as [-> _].
+    assert (Hok : run_tagged w ops <> None).
+    { apply IH; [exact Hn'|]. intros j. specialize (Hj j). cbn [filter] in Hj.
+      unfold on_file in Hj at 1. rewrite Ef in Hj. exact Hj. }
+    destruct (run_tagged w ops); [discriminate | contradiction].
+Qed.
+
+Lemma run_nofile_ok : forall ops w r, run_tagged w ops = Some r ->
+  forall op, In op ops -> op_file op = None -> step [] op <> None.
+Proof.
+  induction ops as [|op ops IH]; intros w r Hr op' Hin Ef; [contradiction|].
+  cbn [run_tagged] in Hr. destruct (step w op) as [[w' obs]|] eqn:Es; [|discriminate Hr].
+  destruct (run_tagged w' ops) as [r'|] eqn:Er; [|discriminate Hr].
+  destruct Hin as [->|Hin].
+  - pose proof (step_nofile w [] op' Ef) as Hp. rewrite Es in Hp.
+    destruct (step [] op'); [discriminate | contradiction].
+  - exact (IH w' r' Er op' Hin Ef).
+Qed.
+
+(* Two histories with the same per-File sub-histories (and the same File-less operations)
+   give every File the same observations and the same final state. *)
+Lemma run_same_projections ops1 ops2 w r1 :
+  (forall i, filter (on_file i) ops1 = filter (on_file i) ops2) ->
+  (forall op, In op ops2 -> op_file op = None -> In op ops1) ->
+  run_tagged w ops1 = Some r1 ->
+  exists r2, run_tagged w ops2 = Some r2 /\
+             forall i, obs_of i (snd r1) = obs_of i (snd r2) /\ wget (fst r1) i = wget (fst r2) i.
+Proof.
+  intros Hp Hn Hr.
+  assert (Hok : run_tagged w ops2 <> None).
+  { apply run_compose.
+    - intros op Hin Ef. exact (run_nofile_ok ops1 w r1 Hr op (Hn op Hin Ef) Ef).
+    - intros j. rewrite <- Hp. destruct (run_frame j ops1 w w r1 eq_refl Hr) as [ri [Hri _]].
+      rewrite Hri. discriminate. }
+  destruct (run_tagged w ops2) as [r2|] eqn:Er2; [|contradiction].
+  exists r2. split; [reflexivity|]. intros i.
+  destruct (run_frame i ops1 w w r1 eq_refl Hr) as [ri1 [Hri1 [Ho1 Hf1]]].
+  destruct (run_frame i ops2 w w r2 eq_refl Er2) as [ri2 [Hri2 [Ho2 Hf2]]].
+  rewrite Hp in Hri1. rewrite Hri1 in Hri2. injection Hri2 as <-.
+  split; congruence.
+Qed.
+
+(* ---- interleavings ---- *)
+Inductive merge {A} : list A -> list A -> list A -> Prop :=
+| merge_nil : merge [] [] []
+| merge_l x a b l : merge a b l -> merge (x :: a) b (x :: l)
+| merge_r x a b l : merge a b l -> merge a (x :: b) (x :: l).
+
+Lemma merge_filter_l {A} (p : A -> bool) a b l :
+  merge a b l -> (forall y, In y b -> p y = false) -> filter p l = filter p a.
+Proof.
+  induction 1 as [|x a b l Hm IH|x a b l Hm IH]; intros Hb; [reflexivity| |].
+  - cbn [filter]. rewrite (IH Hb). reflexivity.
+  - cbn [filter]. rewrite (Hb x (or_introl eq_refl)). apply IH. intros y Hy. apply Hb. right. exact Hy.
+Qed.
+
+Lemma merge_sym {A} (a b l : list A) : merge a b l -> merge b a l.
+Proof. induction 1; constructor; assumption. Qed.
+
+Lemma merge_In {A} (a b l : list A) x : merge a b l -> (In x l <-> In x a \/ In x b).
+Proof.
+  induction 1 as [|y a b l Hm IH|y a b l Hm IH]; cbn [In]; [tauto| |]; rewrite IH; tauto.
+Qed.
+
+Lemma merge_app {A} (a b : list A) : merge a b (a ++ b).
+Proof.
+  induction a as [|x a IH]; cbn [app].
+  - induction b as [|y b IHb]; constructor; exact IHb.
+  - constructor. exact IH.
+Qed.
+
+Definition files_disjoint (a b : list sexp) : Prop :=
+  forall x y i, In x a -> In y b -> op_file x = Some i -> op_file y = Some i -> False.
+
+Lemma merge_same_projection a b l1 l2 i :
+  files_disjoint a b -> merge a b l1 -> merge a b l2 ->
+  filter (on_file i) l1 = filter (on_file i) l2.
+Proof.
+  intros Hd H1 H2.
+  destruct (existsb (on_file i) b) eqn:Eb.
+  - apply existsb_exists in Eb. destruct Eb as [y [Hy Ey]]. apply on_file_true in Ey.
+    assert (Ha : forall x, In x a -> on_file i x = false).
+    { intros x Hx. destruct (on_file i x) eqn:Ex; [|reflexivity].
+      apply on_file_true in Ex. exfalso. exact (Hd x y i Hx Hy Ex Ey). }
+    rewrite (merge_filter_l _ _ _ _ (merge_sym _ _ _ H1) Ha).
+    rewrite (merge_filter_l _ _ _ _ (merge_sym _ _ _ H2) Ha). reflexivity.
+  - assert (Hb : forall y, In y b -> on_file i y = false).
+    { intros y Hy. destruct (on_file i y) eqn:Ey; [|reflexivity].
+      assert (existsb (on_file i) b = true) by (apply existsb_exists; exists y; split; assumption).
+      congruence. }
+    rewrite (merge_filter_l _ _ _ _ H1 Hb), (merge_filter_l _ _ _ _ H2 Hb). reflexivity.
+Qed.
+
+Lemma run_interleave a b l1 l2 w r1 :
+  files_disjoint a b -> merge a b l1 -> merge a b l2 ->
+  run_tagged w l1 = Some r1 ->
+  exists r2, run_tagged w l2 = Some r2 /\
+             forall i, obs_of i (snd r1) = obs_of i (snd r2) /\ wget (fst r1) i = wget (fst r2) i.
+Proof.
+  intros Hd H1 H2 Hr. apply (run_same_projections l1 l2 w r1); [| |exact Hr].
+  - intros i. exact (merge_same_projection a b l1 l2 i Hd H1 H2).
+  - intros op Hin _. apply (merge_In _ _ _ op H1). apply (merge_In _ _ _ op H2). exact Hin.
+Qed.
